@@ -46,7 +46,7 @@ import Pog.Props.Dc
     str_default_exact / _partial           it evaluates to the default iff the string has no character outside the BMP
     ✗ str_default_counterexample           an astral character comes back as two surrogates (json.dumps with ensure_ascii)
 -/
--- INDEX Pog.DcProps: str_default_is_one_literal, str_default_exact, str_default_partial, str_default_counterexample, default_str, default_bool, default_int, default_float, default_enum_expr
+-- INDEX Pog.DcProps: str_default_is_one_literal, str_default_exact, str_default_partial, str_default_counterexample, default_str, default_bool, default_int, default_float
 namespace Pog.C15
 open Pog
 
